@@ -267,6 +267,126 @@ pub fn observe_twin(tw: &mut Twin) -> Obs {
     o
 }
 
+// ---------------------------------------------------------------------------------------------------------------
+// transcript records of the getter model (work package capiget; Driver/CApiGetters.lean)
+
+fn hxs(v: &[String]) -> String {
+    format!("L{}", v.iter().map(|s| vharness::hx(s)).collect::<Vec<_>>().join(","))
+}
+
+fn opt_list(r: Option<Vec<String>>) -> String {
+    match r {
+        Some(v) => hxs(&v),
+        None => "-".into(),
+    }
+}
+
+/// the 14 `EditorOptions` fields in the encoding of Model/Config.lean (bool 0/1, usize, enum = variant index)
+fn options_numbers(o: &chewing::editor::EditorOptions) -> String {
+    use chewing::dictionary::LookupStrategy;
+    let v: Vec<usize> = vec![
+        o.easy_symbol_input as usize,
+        o.esc_clear_all_buffer as usize,
+        o.space_is_select_key as usize,
+        o.auto_shift_cursor as usize,
+        o.phrase_choice_rearward as usize,
+        o.disable_auto_learn_phrase as usize,
+        o.auto_commit_threshold,
+        o.candidates_per_page,
+        match o.language_mode {
+            LanguageMode::Chinese => 0,
+            LanguageMode::English => 1,
+        },
+        match o.character_form {
+            CharacterForm::Halfwidth => 0,
+            CharacterForm::Fullwidth => 1,
+        },
+        match o.user_phrase_add_dir {
+            UserPhraseAddDirection::Forward => 0,
+            UserPhraseAddDirection::Backward => 1,
+        },
+        match o.lookup_strategy {
+            LookupStrategy::Standard => 0,
+            LookupStrategy::FuzzyPartialPrefix => 1,
+        },
+        match o.conversion_engine {
+            ConversionEngineKind::SimpleEngine => 0,
+            ConversionEngineKind::ChewingEngine => 1,
+            ConversionEngineKind::FuzzyChewingEngine => 2,
+        },
+        o.enable_fullwidth_toggle_key as usize,
+    ];
+    v.iter().map(|n| n.to_string()).collect::<Vec<_>>().join(",")
+}
+
+/// `capiget obs <the answers of the twin editor's Rust getters> => <what the REAL C getters returned>`: the Lean getter
+/// model (Model/CApiGetters.lean) recomputes the right-hand side from the left-hand side.
+pub fn capiget_record(tw: &mut Twin, c: &Obs) -> String {
+    let ed = &mut tw.ed;
+    let hx = vharness::hx;
+    let facts = vec![
+        hx(&ed.display()),
+        ed.len().to_string(),
+        (ed.is_empty() as u8).to_string(),
+        ed.cursor().to_string(),
+        hx(ed.display_commit()),
+        hx(ed.notification()),
+        hx(&ed.syllable_buffer_display()),
+        (ed.entering_syllable() as u8).to_string(),
+        (ed.is_selecting() as u8).to_string(),
+        opt_list(ed.all_candidates().ok()),
+        opt_list(ed.paginated_candidates().ok()),
+        vharness::opt(ed.total_page().ok()),
+        vharness::opt(ed.current_page_no().ok()),
+        (ed.has_next_selection_point() as u8).to_string(),
+        (ed.has_prev_selection_point() as u8).to_string(),
+        format!("I{}", ed.intervals().map(|i| format!("{}:{}:{}", i.start, i.end, i.is_phrase as u8)).collect::<Vec<_>>().join(",")),
+        format!("{:?}", ed.last_key_behavior()),
+        options_numbers(&ed.editor_options()),
+        format!("P{}", ed.symbols().iter().filter_map(|s| s.to_syllable()).map(|s| s.to_u16().to_string()).collect::<Vec<_>>().join(",")),
+    ];
+    let m = &c.modes;
+    let legacy = [m[0], m[1], m[3], m[4], m[5], m[6], m[7], m[8], m[9], m[10], m[11]];
+    let vals = vec![
+        format!("commit_Check={}", c.commit_check),
+        format!("commit_String={}", hx(&c.commit)),
+        format!("commit_String_static={}", hx(&c.commit_static)),
+        format!("buffer_String={}", hx(&c.buf)),
+        format!("buffer_String_static={}", hx(&c.buf_static)),
+        format!("buffer_Check={}", c.buf_check),
+        format!("buffer_Len={}", c.len),
+        format!("cursor_Current={}", c.cursor),
+        format!("bopomofo_String={}", hx(&c.bopo)),
+        format!("bopomofo_String_static={}", hx(&c.bopo_static)),
+        format!("bopomofo_Check={}", c.bopo_check),
+        format!("aux_Check={}", c.aux_check),
+        format!("aux_Length={}", c.aux_len),
+        format!("aux_String={}", hx(&c.aux)),
+        format!("aux_String_static={}", hx(&c.aux_static)),
+        format!("CheckIgnore={}", c.ignore),
+        format!("CheckAbsorb={}", c.absorb),
+        format!("cand_CheckDone={}", c.check_done),
+        format!("cand_TotalPage={}", c.total_page),
+        format!("cand_ChoicePerPage={}", c.per_page),
+        format!("cand_TotalChoice={}", c.total_choice),
+        format!("cand_CurrentPage={}", c.cur_page),
+        format!("by_index={}", hxs(&c.list)),
+        format!("by_index_static={}", hxs(&c.list_static)),
+        format!("by_index_beyond={}", hxs(&c.list_beyond)),
+        format!("cand_Enumerate={}", hxs(&c.enumd)),
+        format!("list_has_next={}", c.has_next),
+        format!("list_has_prev={}", c.has_prev),
+        format!("intervals=I{}", c.intervals.iter().map(|(a, b)| format!("{}:{}", a, b)).collect::<Vec<_>>().join(",")),
+        format!("modes={}", legacy.iter().map(|n| n.to_string()).collect::<Vec<_>>().join(",")),
+        format!("zuin_Check={}", c.zuin_check),
+        format!("zuin_String={}", hx(&c.zuin)),
+        format!("zuin_count={}", c.zuin_count),
+        format!("phoneSeqLen={}", c.phone_len),
+        format!("phoneSeq=P{}", c.phone.iter().map(|n| n.to_string()).collect::<Vec<_>>().join(",")),
+    ];
+    format!("capiget obs {} => {}", facts.join(" "), vals.join(" "))
+}
+
 /// the pre-edit buffer of the twin as tokens: `s<syllable code>` / `c<character>`
 pub fn tokens(tw: &Twin) -> Vec<String> {
     tw.ed
